@@ -336,6 +336,11 @@ impl<'a> GeneratorState<'a> {
     fn generate_deref(&mut self, expr: &Expr, pos: usize) -> Result<ExprType, Error> {
         match expr {
             Expr::Identifier(var, sub) => {
+                if var == "X" || var == "Y" {
+                    return Err(self
+                        .compiler_state
+                        .syntax_error("Deref on something else than a pointer", pos));
+                }
                 let v = self.compiler_state.get_variable(var);
                 if v.var_type == VariableType::CharPtr {
                     let sub_output = self.generate_expr(sub, pos, false, false)?;
@@ -383,6 +388,11 @@ impl<'a> GeneratorState<'a> {
     fn generate_addr(&mut self, expr: &Expr, pos: usize) -> Result<ExprType, Error> {
         match expr {
             Expr::Identifier(var, sub) => {
+                if var == "X" || var == "Y" {
+                    return Err(self
+                        .compiler_state
+                        .syntax_error("& only works on char (8 bits) variables", pos));
+                }
                 let v = self.compiler_state.get_variable(var);
                 if v.var_type == VariableType::Char {
                     let sub_output = self.generate_expr(sub, pos, false, false)?;
@@ -420,6 +430,9 @@ impl<'a> GeneratorState<'a> {
                 }
             }
             Expr::Identifier(var, _) => {
+                if var == "X" || var == "Y" {
+                    return Ok(ExprType::Immediate(1));
+                }
                 let v = self.compiler_state.get_variable(var);
                 match v.var_type {
                     VariableType::CharPtr => {
@@ -1072,6 +1085,11 @@ impl<'a> GeneratorState<'a> {
     fn generate_strobe_statement(&mut self, expr: &Expr, pos: usize) -> Result<(), Error> {
         match expr {
             Expr::Identifier(name, _) => {
+                if name == "X" || name == "Y" {
+                    return Err(self
+                        .compiler_state
+                        .syntax_error("Strobe only works on memory pointers", pos));
+                }
                 let v = self.compiler_state.get_variable(name);
                 match v.var_type {
                     VariableType::CharPtr => {
